@@ -27,7 +27,7 @@ def evLine (e : Ev) : String :=
 
 def entryLine (cacheMode : Bool) (d : Nat) (e : EntryInfo) : String :=
   let base := s!"E {d} {e.type} {hexOfBytes e.name} {e.sector} {e.size} {e.access} {hexOrTilde e.comment} {e.year} {e.month} {e.days} {e.hour} {e.mins} {e.secs}"
-  if cacheMode then base else base ++ s!" {e.real} {e.parent}"
+  if cacheMode then base else base ++ s!" {toInt32 e.real} {toInt32 e.parent}"
 
 structure Drv where
   w : World := {}
@@ -69,7 +69,14 @@ def fileStat (f : FileH) : String :=
 
 def noFile : List String := ["= no-such-handle"]
 
-def stepOp (d : Drv) (args : List String) : List String × Drv :=
+/-- the harness refuses operations on a volume that is not mounted (outside the API's envelope) -/
+def volOpNeeds (args : List String) : Option Nat :=
+  match args with
+  | op :: _ :: p :: _ =>
+    if op ∈ ["free", "bmbits", "comment", "access", "chdir", "parent", "toroot", "list", "bootblock", "undel", "mkdir", "remove", "rename", "unmount"] then some (natOf p) else none
+  | _ => none
+
+def stepOp1 (d : Drv) (args : List String) : List String × Drv :=
   let n := natOf
   match args with
   | ["trace", x] => (["= ok"], { d with traceOn := n x ≠ 0 })
@@ -83,6 +90,9 @@ def stepOp (d : Drv) (args : List String) : List String × Drv :=
   | ["faultclear"] =>
     ([s!"= ok fired={d.w.st.faultsFired}"], { d with w := { d.w with st := { d.w.st with faultAt := none, faultEvery := false } } })
   | ["readlimit", _] => (["= ok"], d)
+  | ["allocs"] =>
+    -- the model's prediction is only meaningful when everything is closed: no allocation is left
+    (if d.w.devOpen then ["= live=?"] else ["= live=0"], d)
   | "newdev" :: _ :: cyl :: heads :: secs :: rest =>
     runTop d (createDumpDevice (n cyl) (n heads) (n secs) (rest = ["native"])) fun _ w => ["= ok" ++ devSummary w.cfg]
   | ["mkflop", _, nm, t] =>
@@ -94,7 +104,7 @@ def stepOp (d : Drv) (args : List String) : List String × Drv :=
       | a :: b :: c :: e :: r, k+1 => (n a, n b, bytesOfHex c, n e) :: parts r k
       | _, _ => []
     runTop d (createHd (parts rest (n np))) fun rc w => [s!"= rc={rc}" ++ (if rc = 0 then devSummary w.cfg else "")]
-  | ["closedev", _] => runTop d closeDev fun _ _ => ["= ok"]
+  | ["closedev", _] => if !d.w.devOpen then (["= no-dev"], d) else runTop d closeDev fun _ _ => ["= ok"]
   | ["opendev", _, ro] =>
     runTop d (mountDev (n ro ≠ 0)) fun ok w => [if ok then "= ok" ++ devSummary w.cfg else "= fail"]
   | ["mount", _, p, ro] =>
@@ -199,5 +209,15 @@ def stepOp (d : Drv) (args : List String) : List String × Drv :=
   | ["rmdev", _] => (["= ok"], d)
   | op :: _ => ([s!"= bad-op {op}"], d)
   | [] => ([], d)
+
+def volMounted (d : Drv) (p : Nat) : Bool := d.w.devOpen && p < d.w.cfg.vols.length && (d.w.cfg.vol p).mounted
+
+def stepOp (d : Drv) (args : List String) : List String × Drv :=
+  match volOpNeeds args with
+  | some p => if volMounted d p then stepOp1 d args else (["= not-mounted"], d)
+  | none =>
+    match args with
+    | ["open", _, _, p, _, _] => if volMounted d (natOf p) then stepOp1 d args else (["= not-mounted"], d)
+    | _ => stepOp1 d args
 
 end Adf
